@@ -8,7 +8,7 @@
  *     case k K => ok
  *     decl tp <id> <total tasks> => ok
  *     decl comp <cid> <m1> ... <mn> => n=<nb_taskpools> term=<array[nb]==NULL> members=<1|0>
- *     ev <kind> <thread> <a> <b> => ok          (all events of the case, ordered by the global stamp)
+ *     ev <kind> <thread> <a> <b> => ok          (all events of the case, ordered by the global stamp; cb/cbe = begin/end of a callback)
  *     end => quiescent | not-quiescent active=<v>
  * Events are recorded by test-owned task bodies and completion callbacks, by the master around
  * every API call, and by the H1 yield hook (guard PARSEC_VERIF) for every atomic read-modify-write
@@ -24,7 +24,9 @@
  *   addat <id> <task> <id2>                  the body of task <task> of <id> adds taskpool <id2>
  *   compound <cid> <m1> ... <mn>             cid = parsec_compose(...(m1, m2)..., mn)   (n >= 2)
  *   compose1 <id>                            parsec_compose(tp, NULL) and (NULL, tp) must return tp
- *   start | wait | test | active | add <id> | tpwait <id> | stall <us> | sleep <us>
+ *   start | wait | test | active | add <id> | tpwait <id> | stall <us> | stalladd <us> | sleep <us>
+ *       stall: the next RMW of active_taskpools by a worker that reads 0 first sleeps <us> (a preemption at that point)
+ *       stalladd: every test-issued add_taskpool sleeps <us> right before its first RMW of active_taskpools
  *   endcase
  */
 #include "parsec.h"
@@ -52,9 +54,9 @@ typedef struct {
     parsec_taskpool_t** taskpool_array;
 } compound_mirror_t;
 
-enum { EV_TB, EV_TE, EV_CB, EV_ADD, EV_ADDRET, EV_RMW, EV_MCB, EV_STARTCALL, EV_START, EV_WAITCALL, EV_WAITRET,
+enum { EV_TB, EV_TE, EV_CB, EV_CBE, EV_ADD, EV_ADDRET, EV_RMW, EV_MCB, EV_STARTCALL, EV_START, EV_WAITCALL, EV_WAITRET,
        EV_TPWAITCALL, EV_TPWAITRET, EV_TEST, EV_ACTIVE, EV_NKINDS };
-static const char *ev_name[] = { "tb", "te", "cb", "add", "addret", "rmw", "mcb", "startcall", "start", "waitcall", "waitret",
+static const char *ev_name[] = { "tb", "te", "cb", "cbe", "add", "addret", "rmw", "mcb", "startcall", "start", "waitcall", "waitret",
                                  "tpwaitcall", "tpwaitret", "test", "active" };
 typedef struct { int kind, t, a, b; } ev_t;
 #define MAXEV (1 << 20)
@@ -75,7 +77,8 @@ static parsec_data_collection_t A;
 static int K = 1, wd_limit = 30;
 static volatile time_t case_t0 = 0;
 static volatile int case_no = -1;
-static volatile int32_t stall_us = 0;
+static volatile int32_t stall_us = 0, stalladd_us = 0;
+static __thread int pend_add = 0;   /* the calling thread is inside a test-issued add_taskpool, before its first counter update */
 static long n_tasks = 0, n_adds_task = 0, n_adds_cb = 0, n_stalls = 0;
 
 static inline int me(void)
@@ -120,6 +123,7 @@ static void ycb(int kind, volatile void *addr)
         int t = me();
         int v = ctx->active_taskpools;
         ev(EV_RMW, t, v, 0);
+        if( pend_add ) { pend_add = 0; if( stalladd_us > 0 ) usleep(stalladd_us); }
         if( t != 0 && 0 == v && stall_us > 0 ) {
             int32_t us = __atomic_exchange_n(&stall_us, 0, __ATOMIC_SEQ_CST);
             if( us > 0 ) { __atomic_fetch_add(&n_stalls, 1, __ATOMIC_RELAXED); usleep(us); }
@@ -147,7 +151,9 @@ static void do_add(int t, int id)
 {
     ev(EV_ADD, t, id, 0);
     T[id].added = 1;
+    pend_add = 1;
     parsec_context_add_taskpool(ctx, T[id].tp);
+    pend_add = 0;
     ev(EV_ADDRET, t, id, 0);
 }
 
@@ -173,6 +179,8 @@ static int on_complete(parsec_taskpool_t *tp, void *data)
     (void)tp;
     ev(EV_CB, t, id, 0);
     for( int i = 0; i < T[id].ncbadd; i++ ) { __atomic_fetch_add(&n_adds_cb, 1, __ATOMIC_RELAXED); do_add(t, T[id].cbadd[i]); }
+    if( T[id].delay ) spin_us(T[id].delay);     /* a callback that takes some time */
+    ev(EV_CBE, t, id, 0);
     return 0;
 }
 
@@ -201,6 +209,7 @@ static void end_case(void)
     if( 0 == act && !started ) printf("end => quiescent\n"); else printf("end => not-quiescent active=%d started=%d\n", act, started);
     fflush(stdout);
     case_t0 = 0;
+    if( !(0 == act && !started) ) _exit(4);      /* the context is not reusable: do not run further cases in it */
 }
 
 int main(int argc, char **argv)
@@ -225,7 +234,7 @@ int main(int argc, char **argv)
         if( 0 == nw || '#' == w[0][0] ) continue;
         if( !strcmp(w[0], "case") && nw == 2 ) {
             end_case();
-            memset(T, 0, sizeof(T)); nev = 0; stall_us = 0;
+            memset(T, 0, sizeof(T)); nev = 0; stall_us = 0; stalladd_us = 0;
             case_no = atoi(w[1]); case_t0 = time(NULL);
             printf("case %d %d => ok\n", case_no, K);
         } else if( !strcmp(w[0], "tp") && nw == 5 ) {
@@ -273,6 +282,8 @@ int main(int argc, char **argv)
             ev(EV_TPWAITCALL, 0, id, 0); int r = parsec_taskpool_wait(T[id].tp); ev(EV_TPWAITRET, 0, id, r < 0 ? -1 : 0);
         } else if( !strcmp(w[0], "stall") && nw == 2 ) {
             stall_us = atoi(w[1]);
+        } else if( !strcmp(w[0], "stalladd") && nw == 2 ) {
+            stalladd_us = atoi(w[1]);
         } else if( !strcmp(w[0], "sleep") && nw == 2 ) {
             usleep(atoi(w[1]));
         } else if( !strcmp(w[0], "endcase") ) {
